@@ -35,8 +35,8 @@ CLAIMED = {
    note="Known finding (recorded, not repaired): extended timestamp of type-1/2 chunks taken as absolute instead of delta. Completion order over unbounded interleavings follows by induction over the frame condition (not mechanised). Trusted: ghost-stream contracts, govc, go/ssa, solvers.",
    design="7/C02"),
  "C03": dict(
-   text="Set Chunk Size, Window Acknowledgement Size, Set Peer Bandwidth and User Control packets: Size(), marshal layout, unmarshal acceptance and values over the full uint32/int32 ranges and all 65536 user-control event types (1/4/8-byte bodies) by bit-vector reasoning; User Control round-trip lemma with trailing data.",
-   note="Command dispatch by name and _result/_error dispatch by transaction id (right response type, consumed once, error when unmatched) are under contract. PARTIAL: marshalling of the AMF0 command packets and the reflection-based Expect* helpers are not. Trusted: govc, go/ssa, solvers.",
+   text="Set Chunk Size, Window Acknowledgement Size, Set Peer Bandwidth and User Control packets: Size(), marshal layout, unmarshal acceptance and values over the full uint32/int32 ranges and all 65536 user-control event types (1/4/8-byte bodies) by bit-vector reasoning; User Control round-trip lemma with trailing data. AMF0 command packets (connect, connect response with and without an args object, createStream and its response, publish, play, generic call/closeStream with and without an argument): BOUNDED lemmas over fixed-shape AMF0 trees with arbitrary scalar contents, key bytes, stream names and transaction ids - marshal length == Size(), field order, decode into a fresh packet of the same kind to equal field values, re-marshal to the same bytes.",
+   note="Command dispatch by name and _result/_error dispatch by transaction id (right response type, consumed once, error when unmatched) are under contract. PARTIAL: the command-packet clauses are bounded stand-ins (fixed shapes, callees inlined), not proofs over all AMF0 trees; the reflection-based Expect* helpers are not under contract. Trusted: govc, go/ssa, solvers.",
    design="7/C03"),
  "C09": dict(
    text="Byte-exact FLV v1 layout contracts on the real muxer (13-byte header incl. PreviousTagSize0, 11-byte tag header, body, PreviousTagSize = 11+size) and demuxer (fields read at the stream head, exact advance by 13 / 11 / size+4, body never truncated, acceptance iff enough bytes), stated over ghost byte streams so they hold for every segmentation of the transport; plus the header+tag round-trip lemma through a real bytes.Buffer / bytes.Reader for every type, 32-bit timestamp and body below 2^24 bytes.",
